@@ -221,8 +221,8 @@ func c05Packers(p *Prog, r *Report) {
 			}
 		}
 		for ei, ex := range exits {
-			ps := linOfVarAt(p, fc, packetStart, ex)
-			pl := linOfVarAt(p, fc, packetLen, ex)
+			ps := linOfResultAt(p, fc, nres-3, ex)
+			pl := linOfResultAt(p, fc, nres-2, ex)
 			// identity
 			diff := ps.add(pl, 1).add(linForm{payloadStart.Name(): 1}, -1).add(linForm{payloadLen.Name(): 1}, -1)
 			tagAtom := "recv.aead.Overhead()"
@@ -514,9 +514,10 @@ func c05SelfLimiting(p *Prog, r *Report, fc *FuncCtx, payloadStart, payloadLen, 
 	} else {
 		limit = linForm{"recv.maxPacketSize": 1}
 	}
+	nresSL := fc.Obj.Type().(*types.Signature).Results().Len()
 	for ei, ex := range exits {
-		ps := linOfVarAt(p, fc, packetStart, ex)
-		pl := linOfVarAt(p, fc, packetLen, ex)
+		ps := linOfResultAt(p, fc, nresSL-3, ex)
+		pl := linOfResultAt(p, fc, nresSL-2, ex)
 		okMTU, okFront := false, false
 		var got []string
 		for _, a := range minArgs {
@@ -697,8 +698,8 @@ func c05Unpackers(p *Prog, r *Report) {
 			if fc.ErrAtReturn(ex) == ErrNonNil {
 				continue
 			}
-			ps := linOfVarAt(p, fc, payloadStart, ex)
-			pl := linOfVarAt(p, fc, payloadLen, ex)
+			ps := linOfResultAt(p, fc, 1, ex)
+			pl := linOfResultAt(p, fc, 2, ex)
 			d := ps.add(pl, 1).add(end, -1)
 			r.Check(d.isZero(), rule, fmt.Sprintf("%s:payload-ends-with-packet#%d", fc.Name, ei), p.posStr(fc.Body.Pos()), "payloadStart + payloadLen == packetStart + packetLen", "payloadStart + payloadLen - (packetStart + packetLen) = "+d.String()+": the payload handed on is not the tail of the received packet")
 			// payloadStart - packetStart is a sum of non-negative terms (header length, constants >= 0)
@@ -959,14 +960,9 @@ func c05DeclaredHeadrooms(p *Prog, r *Report) {
 				return nil, nil
 			}
 			var val ast.Expr
-			ast.Inspect(fc.Body, func(x ast.Node) bool {
-				if kv, ok := x.(*ast.KeyValueExpr); ok {
-					if id, ok := kv.Key.(*ast.Ident); ok && id.Name == "Headroom" {
-						val = kv.Value
-					}
-				}
-				return true
-			})
+			for _, v := range fieldInits(fc, "Headroom") {
+				val = v
+			}
 			return val, fc
 		}
 		p.AllFuncs(pkg, func(info *FuncCtx) {
@@ -979,14 +975,9 @@ func c05DeclaredHeadrooms(p *Prog, r *Report) {
 				{"PackerHeadroom", "NewSession", "ClientPackerInfo"},
 			} {
 				var declared ast.Expr
-				ast.Inspect(info.Body, func(x ast.Node) bool {
-					if kv, ok := x.(*ast.KeyValueExpr); ok {
-						if id, ok := kv.Key.(*ast.Ident); ok && id.Name == side.field {
-							declared = kv.Value
-						}
-					}
-					return true
-				})
+				for _, v := range fieldInits(info, side.field) {
+					declared = v
+				}
 				maker := p.LookupFunc(rel, owner, side.maker)
 				if declared == nil || maker == nil {
 					continue
